@@ -38,17 +38,18 @@ Fixpoint msg_eqb (a b : msg) : bool :=
   | _, _ => false
   end.
 
-(* stdlib errors.Is over the Wrap chains declared in the provider packages *)
-Fixpoint isa_fuel (fuel : nat) (k s : N) : bool :=
+(* stdlib errors.Is over the Wrap chains [ps] (child, parent) declared in the provider packages *)
+Fixpoint isa_fuel (ps : list (N * N)) (fuel : nat) (k s : N) : bool :=
   (k =? s) ||
   match fuel with
   | O => false
-  | S f => match find (fun p => fst p =? k) parents with
-           | Some (_, q) => isa_fuel f q s
+  | S f => match find (fun p => fst p =? k) ps with
+           | Some (_, q) => isa_fuel ps f q s
            | None => false
            end
   end.
-Definition isa (k s : N) : bool := isa_fuel (List.length parents) k s.
+Definition isa_tab (ps : list (N * N)) (k s : N) : bool := isa_fuel ps (List.length ps) k s.
+Definition isa (k s : N) : bool := isa_tab parents k s.
 
 (* registry.encode: providers in order, each provider's CheapIs tests in order *)
 Definition enc_rules : list (N * string) := flat_map (fun p => fst (fst p)) providers.
